@@ -182,7 +182,7 @@ def trace_inputs(trace):
     return [ins.get(i, 0) for i in range(n)]
 
 
-def run_harness(unit, fn, tier='quick', timeout=300, mem_gb=24, default_data=4, recursion=1, const_bound=17, sync_bound=2,
+def run_harness(unit, fn, tier='quick', timeout=300, mem_gb=24, default_data=4, recursion=1, tags=(), const_bound=17, sync_bound=2,
                 unwind_overrides=None, max_refine=6, extra_flags=(), checks=False, solver=('--external-sat-solver', 'kissat')):
     """one CBMC query (with unwinding-bound refinement).  returns result dict"""
     gb = unit['gb']
@@ -196,7 +196,7 @@ def run_harness(unit, fn, tier='quick', timeout=300, mem_gb=24, default_data=4, 
         elif kind == 'data':
             us[lname] = default_data + 1
         else:
-            us[lname] = 20
+            us[lname] = 10 if 'memcmp' in lname else 26
     for rf in unit['info'].get('recursive', []):
         us[rf] = recursion
     for k, v in (unwind_overrides or {}).items():
@@ -215,7 +215,13 @@ def run_harness(unit, fn, tier='quick', timeout=300, mem_gb=24, default_data=4, 
         for it in json.loads(out):
             if isinstance(it, dict) and 'properties' in it:
                 for pr in it['properties']:
-                    (reach if pr.get('description', '').startswith('reach:') else real).append(pr['name'])
+                    d = pr.get('description', '')
+                    if d.startswith('reach:'):
+                        if '@' in d and d.split('@')[1] not in [str(x) for x in tags]:
+                            continue   # witness of another harness sharing this code
+                        reach.append(pr['name'])
+                    else:
+                        real.append(pr['name'])
     except Exception as e:
         return dict(fn=fn, status='inconclusive', why='show-properties failed: %r %s' % (e, (out + err)[-400:]), stats=total, unwindset=us)
 
